@@ -280,7 +280,8 @@ Qed.
 
 (* ------------------------------------------------------------------ whole-state invariant *)
 Definition err_ok (c : cfg) (st : state) (e : perr) : Prop :=
-  result_spec c (RErr e) /\ (e = ETimeout -> exists t, g_tmo st = Some t).
+  result_spec c (RErr e) /\ (e = ETimeout -> exists t, g_tmo st = Some t) /\
+  (forall s, e <> EUtf8 s).
 
 (* what is known about stdout's join while the waiter is at stderr's join *)
 Definition J1 (c : cfg) (st : state) (o1 : option bytes) : Prop :=
@@ -301,7 +302,8 @@ Definition WI (c : cfg) (st : state) : Prop :=
   | OJoin2 o1 code =>
       reaped st = true /\ kill_sent st = false /\ (cs st = CExited \/ cs st = CSigpipe) /\
       code = status_code c (cs st) /\ J1 c st o1
-  | WDone r => result_spec c r /\ reaped_spec c st r
+  | WDone r => result_spec c r /\ reaped_spec c st r /\
+               (join_recheck_mode = RecheckAny -> strict_spec c r)
   end.
 
 Record Inv (c : cfg) (st : state) : Prop := {
@@ -348,7 +350,7 @@ Proof.
   - destruct H as (_ & N & _). auto.
   - destruct H as (_ & _ & [N|N] & _); congruence.
   - destruct H as (_ & _ & [N|N] & _); congruence.
-  - destruct H as (_ & (_ & N & _)). auto.
+  - destruct H as (_ & (_ & N & _) & _). auto.
 Qed.
 
 (* WI of a waiter in its loop does not look at the streams, the child or the clock *)
@@ -359,7 +361,7 @@ Lemma WI_loop_frame : forall c st st',
 Proof.
   intros c st st' H Hr Hw Hre Hk Hg. pose proof (WI_running _ _ H Hr) as R.
   unfold WI in *. rewrite Hw. destruct (w st); try contradiction; rewrite ?Hre, ?Hk; auto.
-  destruct H as (A & B & (C & D)). repeat split; auto. unfold err_ok. rewrite Hg. auto.
+  destruct H as (A & B & (C & D & E)). repeat split; auto. rewrite Hg. auto.
 Qed.
 
 Lemma inv_tick : forall c st, Inv c st -> Inv c (tick st).
@@ -368,7 +370,7 @@ Proof.
   constructor; st_simpl; auto.
   - intros t Ht. destruct (hc t Ht). lia.
   - unfold WI in *. st_simpl. destruct (w st); auto.
-    destruct hw as (A & B). split; auto.
+    destruct hw as (A & B & S). split; [auto|split; [|auto]].
     unfold reaped_spec in *. st_simpl.
     destruct B as (B1 & B2 & B3 & B4). repeat split; auto.
     destruct r as [o1 o2 code|[s|s|]]; auto.
@@ -628,33 +630,82 @@ Proof.
     + right. apply K. eapply sigpipe_flag; eauto.
 Qed.
 
+Lemma utf8_err_strict : forall c st s,
+  Inv c st -> (cs st = CExited \/ cs st = CSigpipe) ->
+  r_pc (sget st s) = RDone -> flag st = 0 ->
+  utf8_valid (rbuf (sget st s)) = false ->
+  utf8_valid (out c s) = false.
+Proof.
+  intros c st s H Hcs Hp Hf Hu. pose proof (inv_s c st s H) as Hx.
+  destruct (rovf (sget st s)) eqn:Ho.
+  - exfalso. apply (ovf_done_flag c st s H Ho Hp). exact Hf.
+  - destruct Hcs as [E|E].
+    + destruct (inv_exited _ _ H E) as (R1 & R2).
+      assert (rem (sget st s) = []) as R by (destruct s; auto).
+      destruct (complete_facts _ _ _ _ _ Hx Ho Hp R) as (A & _). congruence.
+    + exfalso. apply (sigpipe_flag c st H E). exact Hf.
+Qed.
+
 Lemma inv_set_w : forall c st x, Inv c st -> WI c (set_w st x) -> Inv c (set_w st x).
 Proof. intros c st x [h1 h2 hf he hs hk hc hw] W. constructor; st_simpl; auto. Qed.
 
 Lemma inv_set_reaped : forall c st x, Inv c st -> WI c (set_reaped st x) -> Inv c (set_reaped st x).
 Proof. intros c st x [h1 h2 hf he hs hk hc hw] W. constructor; st_simpl; auto. Qed.
 
-(* join_ok unfolded *)
+(* join_ok unfolded, for either shape of the post-join re-check (not for a missing one) *)
+Definition flag_in_range (st : state) : Prop :=
+  flag st = 0 \/ flag st = reader_code S1 \/ flag st = reader_code S2.
+
+Lemma join_ok_m_cases : forall m st s,
+  m <> RecheckNone -> flag_in_range st ->
+  match join_ok_m m st s with
+  | JBlocked => True
+  | JNone => r_pc (sget st s) = RNone
+  | JSome b => r_pc (sget st s) = RDone /\ flag st <> reader_code s /\
+               b = rbuf (sget st s) /\ utf8_valid b = true
+  | JErr e => r_pc (sget st s) = RDone /\
+              ((exists s', e = EOLE s' /\ flag st = reader_code s') \/
+               (e = EUtf8 s /\ flag st <> reader_code s /\ utf8_valid (rbuf (sget st s)) = false /\
+                (m = RecheckAny -> flag st = 0)))
+  end.
+Proof.
+  intros m st s Hm Hr. unfold join_ok_m. destruct (r_pc (sget st s)) eqn:Hp; auto.
+  change utf8_checked with true. cbn [negb orb].
+  destruct m; [contradiction| |]; cbn [recheck].
+  - (* own code only *)
+    rewrite join_code_is_reader_code.
+    destruct (Z.eqb_spec (flag st) (reader_code s)) as [E|E].
+    + split; [auto|]. left. exists s. auto.
+    + destruct (utf8_valid (rbuf (sget st s))) eqn:Hu.
+      * repeat split; auto.
+      * split; [auto|]. right. repeat split; auto. discriminate.
+  - (* any recorded overflow *)
+    destruct (Z.eqb_spec (flag st) 0) as [E|E].
+    + assert (flag st <> reader_code s) as N
+        by (rewrite E; intros F; symmetry in F; exact (reader_code_nonzero s F)).
+      destruct (utf8_valid (rbuf (sget st s))) eqn:Hu.
+      * repeat split; auto.
+      * split; [auto|]. right. repeat split; auto.
+    + split; [auto|]. left. exists (from_code (flag st)). split; auto.
+      destruct Hr as [F|[F|F]]; [contradiction| |]; rewrite F at 2; rewrite from_code_reader_code; auto.
+Qed.
+
+Lemma recheck_present : join_recheck_mode <> RecheckNone.
+Proof. discriminate. Qed.
+
 Lemma join_ok_cases : forall st s,
+  flag_in_range st ->
   match join_ok st s with
   | JBlocked => True
   | JNone => r_pc (sget st s) = RNone
   | JSome b => r_pc (sget st s) = RDone /\ flag st <> reader_code s /\
                b = rbuf (sget st s) /\ utf8_valid b = true
   | JErr e => r_pc (sget st s) = RDone /\
-              ((e = EOLE s /\ flag st = reader_code s) \/
-               (e = EUtf8 s /\ flag st <> reader_code s /\ utf8_valid (rbuf (sget st s)) = false))
+              ((exists s', e = EOLE s' /\ flag st = reader_code s') \/
+               (e = EUtf8 s /\ flag st <> reader_code s /\ utf8_valid (rbuf (sget st s)) = false /\
+                (join_recheck_mode = RecheckAny -> flag st = 0)))
   end.
-Proof.
-  intros st s. unfold join_ok. destruct (r_pc (sget st s)) eqn:Hp; auto.
-  change join_recheck with true. change utf8_checked with true. cbn [andb negb orb].
-  rewrite join_code_is_reader_code.
-  destruct (Z.eqb_spec (flag st) (reader_code s)) as [E|E].
-  - split; auto.
-  - destruct (utf8_valid (rbuf (sget st s))) eqn:Hu.
-    + repeat split; auto.
-    + split; auto.
-Qed.
+Proof. intros st s Hr. apply (join_ok_m_cases join_recheck_mode st s recheck_present Hr). Qed.
 
 Lemma nocap_of_rnone : forall c s x run fl, SI c s x run fl -> r_pc x = RNone -> captured c s = false.
 Proof.
@@ -706,7 +757,8 @@ Proof.
   - destruct (is_run (cs st)) eqn:R; cbn [is_run]; [eapply SI_run_off; eauto|rewrite R; auto].
   - destruct (is_run (cs st)) eqn:R; [discriminate|auto].
   - destruct (is_run (cs st)) eqn:R; [discriminate|auto].
-  - unfold WI; st_simpl. destruct We as (We1 & We2). split; [auto|split]; [|split; auto].
+  - unfold WI; st_simpl. destruct We as (We1 & We2 & We3).
+    split; [auto|split]; [|split; [auto|split; auto]].
     destruct (is_run (cs st)) eqn:R; [discriminate|apply is_run_false; auto].
 Qed.
 
@@ -719,15 +771,35 @@ Proof.
   - unfold ok_stream. rewrite Hc. auto.
 Qed.
 
+(* a join that fails on the success path: the three parts of WI at WDone *)
+Lemma join_err_done : forall c st s e,
+  Inv c st -> reaped st = true -> kill_sent st = false -> (cs st = CExited \/ cs st = CSigpipe) ->
+  r_pc (sget st s) = RDone ->
+  ((exists s', e = EOLE s' /\ flag st = reader_code s') \/
+   (e = EUtf8 s /\ flag st <> reader_code s /\ utf8_valid (rbuf (sget st s)) = false /\
+    (join_recheck_mode = RecheckAny -> flag st = 0))) ->
+  WI c (set_w st (WDone (RErr e))).
+Proof.
+  intros c st s e H A B C Jp J. unfold WI; st_simpl.
+  assert (reaped_spec c (set_w st (WDone (RErr e))) (RErr e)) as RS.
+  { unfold reaped_spec; st_simpl. repeat split; auto; try (destruct C; congruence).
+    destruct J as [(s' & Je & _)|(Je & _)]; subst e; auto. }
+  destruct J as [(s' & Je & Jf)|(Je & Jf & Ju & Jm)]; subst e.
+  - split; [apply (flag_mine_ovf c st); auto|]. split; [exact RS|]. intros _. exact I.
+  - split; [apply (utf8_err_spec c st s); auto|]. split; [exact RS|].
+    intros M. cbn [strict_spec]. apply (utf8_err_strict c st s); auto.
+Qed.
+
 Lemma inv_waiter : forall c st st', Inv c st -> waiter_step c st = Some st' -> Inv c st'.
 Proof.
   intros c st st' H Hs. unfold waiter_step in Hs.
   pose proof (inv_w _ _ H) as W. unfold WI in W.
+  pose proof (inv_flag _ _ H) as FR. fold (flag_in_range st) in FR.
   destruct (w st) eqn:Hw.
   - (* WFlag *)
     destruct (Z.eqb_spec (flag st) 0) as [E|E]; inversion Hs; subst st'; apply inv_set_w; auto;
       unfold WI; st_simpl; auto.
-    destruct W as (A & B). split; [auto|split; [auto|]]. split; [|discriminate].
+    destruct W as (A & B). split; [auto|split; [auto|]]. split; [|split; discriminate].
     assert (flag st = reader_code (from_code (flag st))) as F.
     { destruct (inv_flag _ _ H) as [F|[F|F]]; [contradiction| |]; rewrite F at 2;
         rewrite from_code_reader_code; auto. }
@@ -745,7 +817,9 @@ Proof.
       constructor; st_simpl; auto.
       * intros t Ht. inversion Ht; subst t. unfold deadline_passed in D.
         change deadline_ge with true in D. cbv iota in D. apply Z.leb_le in D. lia.
-      * unfold WI; st_simpl. repeat split; auto. intros _. exists (clock st). reflexivity.
+      * unfold WI; st_simpl. split; [auto|split; [auto|]]. split; [exact I|split].
+        -- intros _. exists (clock st). reflexivity.
+        -- discriminate.
     + apply inv_set_w; auto.
   - (* WSleep *)
     destruct (until <=? clock st); inversion Hs; subst st'. apply inv_set_w; auto.
@@ -758,52 +832,47 @@ Proof.
     destruct (joined st S1); inversion Hs; subst st'. apply inv_set_w; auto.
   - (* EJoin2 *)
     destruct (joined st S2); inversion Hs; subst st'. apply inv_set_w; auto.
-    unfold WI; st_simpl. destruct W as (A & B & C & (D & D')). split; auto.
-    unfold reaped_spec; st_simpl. repeat split; auto.
-    destruct e as [s|s|]; auto. split; auto.
-    destruct (D' eq_refl) as (t & Ht). exists t. split; auto. apply (inv_clock _ _ H); auto.
+    unfold WI; st_simpl. destruct W as (A & B & C & (D & D' & D'')). split; [auto|split].
+    + unfold reaped_spec; st_simpl. repeat split; auto.
+      destruct e as [s|s|]; auto. split; auto.
+      destruct (D' eq_refl) as (t & Ht). exists t. split; auto. apply (inv_clock _ _ H); auto.
+    + intros _. destruct e as [s|s|]; cbn [strict_spec]; auto. exfalso. apply (D'' s). reflexivity.
   - (* OJoin1 *)
     destruct W as (A & B & C & D).
-    pose proof (join_ok_cases st S1) as J. pose proof (inv_s c st S1 H) as Hx.
-    destruct (join_ok st S1) as [| |b|e]; inversion Hs; subst st'; apply inv_set_w; auto;
-      unfold WI; st_simpl.
-    + repeat split; auto. unfold J1. st_simpl.
+    pose proof (join_ok_cases st S1 FR) as J. pose proof (inv_s c st S1 H) as Hx.
+    destruct (join_ok st S1) as [| |b|e]; inversion Hs; subst st'; apply inv_set_w; auto.
+    + unfold WI; st_simpl. repeat split; auto. unfold J1. st_simpl.
       cbn [sget] in J. rewrite (nocap_of_rnone _ _ _ _ _ Hx J). auto.
-    + destruct J as (Jp & Jf & Jb & Ju). cbn [sget] in *. subst b.
+    + unfold WI; st_simpl. destruct J as (Jp & Jf & Jb & Ju). cbn [sget] in *. subst b.
       repeat split; auto. unfold J1; st_simpl. rewrite (cap_of_rdone _ _ _ _ _ Hx Jp).
       repeat split; auto. intros Ho.
       destruct (flag_cases c st S1 H) as (F & _); auto.
       apply (ovf_done_flag c st S1); auto.
-    + destruct J as (Jp & [(Je & Jf)|(Je & Jf & Ju)]); subst e.
-      * split; [apply (flag_mine_ovf c st); auto|].
-        unfold reaped_spec; st_simpl. repeat split; auto. destruct C; congruence.
-      * split; [apply (utf8_err_spec c st S1); auto|].
-        unfold reaped_spec; st_simpl. repeat split; auto. destruct C; congruence.
+    + destruct J as (Jp & J). apply (join_err_done c st S1 e H A B C Jp J).
   - (* OJoin2 *)
     destruct W as (A & B & C & D & J1').
-    pose proof (join_ok_cases st S2) as J. pose proof (inv_s c st S2 H) as Hy.
+    pose proof (join_ok_cases st S2 FR) as J. pose proof (inv_s c st S2 H) as Hy.
     pose proof (inv_s c st S1 H) as Hx. cbn [sget] in Hx, Hy.
     (* if stdout overflowed, the flag names stderr *)
     assert (rovf (st1 st) = true -> flag st = reader_code S2) as K1.
     { intros Ho. unfold J1 in J1'. destruct (captured c S1) eqn:Hc.
       - destruct J1' as (_ & _ & _ & F). auto.
       - rewrite (rovf_nocap _ _ _ _ _ Hx Hc) in Ho. discriminate. }
-    destruct (join_ok st S2) as [| |b|e]; inversion Hs; subst st'; apply inv_set_w; auto;
-      unfold WI; st_simpl.
+    destruct (join_ok st S2) as [| |b|e]; inversion Hs; subst st'; apply inv_set_w; auto.
     + (* stderr not captured *)
-      cbn [sget] in J.
+      unfold WI; st_simpl. cbn [sget] in J.
       assert (rovf (st1 st) = false) as O1.
       { destruct (rovf (st1 st)) eqn:Ho; auto. pose proof (K1 eq_refl) as F.
         destruct (si_flag_mine _ _ _ _ _ Hy F) as (_ & [P|P]); congruence. }
       assert (cs st = CExited) as E.
       { destruct C as [E|E]; auto. exfalso.
         destruct (inv_sigpipe _ _ H E) as (s0 & Q1 & Q2). destruct s0; cbn [sget] in *; congruence. }
-      split.
+      split; [|split; [|intros _; exact I]].
       * cbn [result_spec]. rewrite D, E. repeat split; auto.
         -- apply (J1_ok_stream c st); auto.
         -- apply (ok_stream_none c st S2); auto.
       * unfold reaped_spec; st_simpl. repeat split; auto. rewrite E; discriminate.
-    + destruct J as (Jp & Jf & Jb & Ju). cbn [sget] in *. subst b.
+    + unfold WI; st_simpl. destruct J as (Jp & Jf & Jb & Ju). cbn [sget] in *. subst b.
       assert (rovf (st1 st) = false) as O1.
       { destruct (rovf (st1 st)) eqn:Ho; auto. pose proof (K1 eq_refl). congruence. }
       assert (rovf (st2 st) = false) as O2.
@@ -813,16 +882,12 @@ Proof.
       assert (cs st = CExited) as E.
       { destruct C as [E|E]; auto. exfalso.
         destruct (inv_sigpipe _ _ H E) as (s0 & Q1 & Q2). destruct s0; cbn [sget] in *; congruence. }
-      split.
+      split; [|split; [|intros _; exact I]].
       * cbn [result_spec]. rewrite D, E. repeat split; auto.
         -- apply (J1_ok_stream c st); auto.
         -- apply (ok_stream_some c st S2); auto.
       * unfold reaped_spec; st_simpl. repeat split; auto. rewrite E; discriminate.
-    + destruct J as (Jp & [(Je & Jf)|(Je & Jf & Ju)]); subst e.
-      * split; [apply (flag_mine_ovf c st); auto|].
-        unfold reaped_spec; st_simpl. repeat split; auto. destruct C; congruence.
-      * split; [apply (utf8_err_spec c st S2); auto|].
-        unfold reaped_spec; st_simpl. repeat split; auto. destruct C; congruence.
+    + destruct J as (Jp & J). apply (join_err_done c st S2 e H A B C Jp J).
   - discriminate.
 Qed.
 
@@ -870,14 +935,39 @@ Lemma capture_complete_or_error_lemma : forall c sched r,
 Proof.
   intros c sched r Hc Hw.
   pose proof (reachable_inv c _ Hc (run_reachable c sched _ (reach_init c))) as H.
-  pose proof (inv_w _ _ H) as W. unfold WI in W. rewrite Hw in W. exact W.
+  pose proof (inv_w _ _ H) as W. unfold WI in W. rewrite Hw in W.
+  destruct W as (A & B & _). auto.
+Qed.
+
+(* With the any-overflow re-check the InvalidUtf8 clause is exact. *)
+Lemma error_kind_exact_lemma : forall c sched s,
+  join_recheck_mode = RecheckAny ->
+  cfg_ok c ->
+  w (run c sched (init c)) = WDone (RErr (EUtf8 s)) ->
+  captured c s = true /\ utf8_valid (out c s) = false.
+Proof.
+  intros c sched s M Hc Hw.
+  pose proof (reachable_inv c _ Hc (run_reachable c sched _ (reach_init c))) as H.
+  pose proof (inv_w _ _ H) as W. unfold WI in W. rewrite Hw in W.
+  destruct W as ((A & _) & _ & C). split; auto. apply (C M).
+Qed.
+
+Lemma strict_lemma : forall c sched r,
+  cfg_ok c -> w (run c sched (init c)) = WDone r ->
+  join_recheck_mode = RecheckAny -> strict_spec c r.
+Proof.
+  intros c sched r Hc Hw.
+  pose proof (reachable_inv c _ Hc (run_reachable c sched _ (reach_init c))) as H.
+  pose proof (inv_w _ _ H) as W. unfold WI in W. rewrite Hw in W.
+  destruct W as (_ & _ & C). exact C.
 Qed.
 
 Lemma capture_reachable_lemma : forall c st r,
   cfg_ok c -> reachable c st -> w st = WDone r -> result_spec c r /\ reaped_spec c st r.
 Proof.
   intros c st r Hc R Hw. pose proof (reachable_inv c _ Hc R) as H.
-  pose proof (inv_w _ _ H) as W. unfold WI in W. rewrite Hw in W. exact W.
+  pose proof (inv_w _ _ H) as W. unfold WI in W. rewrite Hw in W.
+  destruct W as (A & B & _). auto.
 Qed.
 
 Lemma child_reaped_lemma : forall c sched r,
@@ -955,13 +1045,16 @@ Qed.
 Lemma opt_eqb_refl : forall o, opt_eqb o o = true.
 Proof. intros [x|]; cbn; auto. destruct (list_eq_dec Z.eq_dec x x); auto. Qed.
 
-Lemma outcome_ok_complete_lemma : forall c sched r,
-  cfg_ok c -> w (run c sched (init c)) = WDone r -> outcome_ok c r = true.
+Lemma outcome_ok_m_complete : forall m c r,
+  result_spec c r -> (m = RecheckAny -> strict_spec c r) -> outcome_ok_m m c r = true.
 Proof.
-  intros c sched r Hc Hw.
-  destruct (capture_complete_or_error_lemma c sched r Hc Hw) as (A & _).
-  destruct r as [o1 o2 code|[s|s|]]; cbn [result_spec outcome_ok] in *.
-  - destruct A as (A1 & A2 & A3). subst code. rewrite Z.eqb_refl. cbn [andb].
+  intros m c r A S.
+  destruct r as [o1 o2 code|[s|s|]]; cbn [result_spec outcome_ok_m strict_spec] in *.
+  - destruct A as (A1 & A2 & A3). subst code.
+    replace (match ecode c with Some z => match ecode c with Some z' => z =? z' | None => false end
+             | None => match ecode c with Some _ => false | None => true end end) with true
+      by (destruct (ecode c); [rewrite Z.eqb_refl|]; reflexivity).
+    cbn [andb].
     assert (forall s o, ok_stream c s o -> ok_stream_b c s o = true) as K.
     { intros s o. unfold ok_stream, ok_stream_b. destruct (captured c s).
       - intros (E1 & E2 & E3). subst o. rewrite opt_eqb_refl, E3.
@@ -969,10 +1062,22 @@ Proof.
       - intros E; subst o. reflexivity. }
     rewrite (K S1 o1 A2), (K S2 o2 A3). reflexivity.
   - destruct A as (A1 & A2). rewrite A1. apply Z.ltb_lt in A2. rewrite A2. reflexivity.
-  - destruct A as (A1 & [A2|(A2 & A3)]); rewrite A1; cbn [andb].
-    + rewrite A2. reflexivity.
-    + rewrite A2. apply Z.ltb_lt in A3. rewrite A3. apply orb_true_r.
+  - destruct A as (A1 & A2). rewrite A1. cbn [andb].
+    destruct m.
+    + destruct A2 as [A2|(A2 & A3)]; [rewrite A2; reflexivity|].
+      rewrite A2. apply Z.ltb_lt in A3. rewrite A3. apply orb_true_r.
+    + destruct A2 as [A2|(A2 & A3)]; [rewrite A2; reflexivity|].
+      rewrite A2. apply Z.ltb_lt in A3. rewrite A3. apply orb_true_r.
+    + rewrite (S eq_refl). reflexivity.
   - reflexivity.
+Qed.
+
+Lemma outcome_ok_complete_lemma : forall c sched r,
+  cfg_ok c -> w (run c sched (init c)) = WDone r -> outcome_ok c r = true.
+Proof.
+  intros c sched r Hc Hw. unfold outcome_ok. apply outcome_ok_m_complete.
+  - apply (capture_complete_or_error_lemma c sched r Hc Hw).
+  - apply (strict_lemma c sched r Hc Hw).
 Qed.
 
 (* ------------------------------------------------------------------ error exits are final *)
@@ -1058,16 +1163,23 @@ Qed.
    The run is still an error (never Ok), but the kind names the wrong condition. *)
 Definition mis_cfg : cfg :=
   {| pol1 := PCapture; pol2 := PCapture; cap := 4; timeout := 1000; poll := 10; pcap := 65536;
-     out1 := [226; 130; 172; 226; 130; 172]; out2 := [120; 120; 120; 120; 120]; ecode := 0 |}.
+     out1 := [226; 130; 172; 226; 130; 172]; out2 := [120; 120; 120; 120; 120]; ecode := Some 0 |}.
 Definition mis_sched : list choice :=
   [Waiter; Child (CWrite S1 6); Child (CWrite S2 5); Child CExit;
    Reader S2 5; Reader S2 0; Reader S1 4; Reader S1 2; Reader S1 0; Reader S1 0; Reader S2 0;
    Waiter; Waiter].
 
 Lemma misattributed_utf8_reachable :
+  join_recheck_mode = RecheckOwn ->
   utf8_valid (out1 mis_cfg) = true /\
   run_outcome mis_cfg mis_sched = Finished (RErr (EUtf8 S1)).
-Proof. split; vm_compute; reflexivity. Qed.
+Proof. intros M. vm_compute in M. first [discriminate M | split; vm_compute; reflexivity]. Qed.
+
+(* the same schedule under the any-overflow re-check ends in the limit error of stderr *)
+Lemma misattribution_repaired :
+  join_recheck_mode = RecheckAny ->
+  run_outcome mis_cfg mis_sched = Finished (RErr (EOLE S2)).
+Proof. intros M. vm_compute in M. first [discriminate M | vm_compute; reflexivity]. Qed.
 
 (* ------------------------------------------------------------------ the protocol cannot get stuck *)
 (* A measure that some enabled step always decreases (child steps are never needed): the readers
@@ -1153,8 +1265,8 @@ Proof. intros c st st' H1 H2 H. unfold mu. rewrite H1, H2. lia. Qed.
 
 Lemma join_blocked_not_joined : forall st s, join_ok st s = JBlocked -> joined st s = false.
 Proof.
-  intros st s. unfold join_ok, joined. destruct (r_pc (sget st s)); auto; try discriminate.
-  destruct (join_recheck && (flag st =? join_code s)); [discriminate|].
+  intros st s. unfold join_ok, join_ok_m, joined. destruct (r_pc (sget st s)); auto; try discriminate.
+  destruct (recheck join_recheck_mode st s); [discriminate|].
   destruct (negb utf8_checked || utf8_valid (rbuf (sget st s))); discriminate.
 Qed.
 
